@@ -10,6 +10,7 @@ import (
 	"context"
 	"fmt"
 	"regexp"
+	"sort"
 	"strings"
 	"unicode"
 
@@ -114,6 +115,49 @@ func runComponents(w *gen.Writer, r *gen.Rand, f gen.Flags) {
 	runBtree(w, r.Fork(), f)
 	runWord(w, r.Fork(), f)
 	runSelect(w, r.Fork(), f)
+	runCaseNgrams(w, r.Fork(), f)
+}
+
+// runCaseNgrams: the real generateCaseNgrams against the Lean odometer model; unicode.SimpleFold enters the model as
+// the table of the successor of every member of the three runes' fold orbits.
+func runCaseNgrams(w *gen.Writer, r *gen.Rand, f gen.Flags) {
+	n := f.N(600, 20000)
+	pool := []rune("abkKsSσΣς-_9éÉ日ßẞǅǆ\u212a\u017fİıθϑ")
+	for c := 0; c < n; c++ {
+		var rs [3]rune
+		for i := range rs {
+			rs[i] = gen.Pick(r, pool)
+			if r.Chance(1, 10) {
+				rs[i] = rune(r.Range(32, 0x2000))
+			}
+		}
+		table := map[rune]rune{}
+		for _, x := range rs {
+			for y := unicode.SimpleFold(x); ; y = unicode.SimpleFold(y) {
+				table[y] = unicode.SimpleFold(y)
+				if y == x {
+					break
+				}
+			}
+		}
+		var keys []int
+		for k := range table {
+			keys = append(keys, int(k))
+		}
+		sort.Ints(keys)
+		var tb []string
+		for _, k := range keys {
+			tb = append(tb, fmt.Sprintf("%d:%d", k, table[rune(k)]))
+		}
+		vs := index.VerifCaseNgrams(rs[0], rs[1], rs[2])
+		var out []string
+		for _, v := range vs {
+			out = append(out, fmt.Sprintf("%d.%d.%d", v[0], v[1], v[2]))
+		}
+		class := fmt.Sprintf("case-variants-%d", len(vs))
+		w.Emit(gen.Case{In: fmt.Sprintf("casengrams %d,%d,%d %s", rs[0], rs[1], rs[2], strings.Join(tb, ",")),
+			Impl: "variants=" + strings.Join(out, "|"), Class: class, Nontrivial: len(vs) > 1})
+	}
 }
 
 // runSelect: L5. The real trigram selection (splitNGrams, sort, indexMap, findSelectiveNgrams) with ARBITRARY
